@@ -6,6 +6,7 @@
 //@ harness e_paths_slash_h kind=enum props=C16 bound=<<starting points d/, d//, d/., ./, d/./ x entries at depth 1, 2 below them>> label=<<%H is the starting point as given and %h the part before the last component, and %H, a separator and %P recompose %p, for starting points spelled with a trailing slash or a trailing /.>>
 //@ harness e_padding kind=enum props=C16 bound=<<widths none, 0, 1, 3, 10, 64, 65, 100, 300 x both justifications x values of 1, 4 and 12 characters (%f) and a number (%d)>> label=<<a directive's value is padded with blanks to the minimum width, on the left by default and on the right with '-', and never truncated>>
 //@ harness e_format_text kind=enum props=C16 bound=<<format strings of 0..=3 pieces over {a, e-acute, \n, \101, \0, \\, %%, %p, trailing text, \a, \b, \f, \r, \t, \v}>> label=<<escapes and %% are replaced by their character, every other character is copied verbatim, nothing is appended>>
+//@ harness e_inode_below_root kind=enum props=C16,C13 bound=<<every entry directly below / (mount points included where the sandbox has them)>> label=<<%i is the inode number of the status record (lstat under -P), also for entries that are mount points, where the directory listing reports a different number>>
 //@ harness e_stat_directives kind=enum props=C16,C13 bound=<<a regular file (5 bytes, mode 0640), a directory (mode 2750), a symbolic link to the file, a dangling link x follow modes -P and -L>> label=<<%s %n %i %U %G in decimal and %m in octal (all twelve bits) come from the status record the follow mode selects; %y/%Y are the type letters of -type/-xtype; %l is the link target or nothing>>
 #[cfg(verif_replay)]
 mod verif_enum_printf {
@@ -85,6 +86,26 @@ mod verif_enum_printf {
         assert!(got == want, "literal text, escapes and %%");
     }
     #[test] fn e_format_text() { kani::explore(format_text_body) }
+
+    fn inode_body() {
+        use std::os::unix::fs::MetadataExt;
+        use std::os::unix::ffi::OsStrExt;
+        let mut bad = Vec::new();
+        let mut n = 0;
+        for e in std::fs::read_dir("/").unwrap() {
+            let p = e.unwrap().path();
+            let md = match std::fs::symlink_metadata(&p) { Ok(m) => m, Err(_) => continue };
+            let entry = WalkEntry::new(p.clone(), 1, Follow::Never);
+            // the entry as the walk delivers it (a directory-listing entry), when walkdir can be asked for it
+            let via_walk = walkdir::WalkDir::new("/").min_depth(1).max_depth(1).into_iter().filter_map(|r| r.ok()).find(|d| d.path().as_os_str().as_bytes() == p.as_os_str().as_bytes());
+            let shown = match via_walk { Some(d) => match WalkEntry::from_walkdir(Ok(d), Follow::Never) { Ok(we) => render("%i", &we), Err(_) => continue }, None => render("%i", &entry) };
+            n += 1;
+            if shown != md.ino().to_string() { bad.push(format!("{}: %i prints {shown}, lstat says {}", p.display(), md.ino())); }
+        }
+        if !bad.is_empty() { eprintln!("  input entries below /: {}\n  input {}", n, bad.join("\n  input ")); }
+        assert!(bad.is_empty(), "%i is not the inode number of the status record");
+    }
+    #[test] fn e_inode_below_root() { kani::explore(inode_body) }
 
     fn stat_body() {
         use std::os::unix::fs::{symlink, MetadataExt, PermissionsExt};
